@@ -281,3 +281,70 @@ Example c20_ext_hypotheses_met :
 Proof. cbv zeta. split; [discriminate|]. split; [repeat constructor|]. split; [|vm_compute; reflexivity].
   unfold fresh_kinds. cbn. repeat constructor; cbn; intuition discriminate. Qed.
 Print Assumptions c20_roundtrip_ext.
+
+(* ---------- C20: defaults for omitted components, and the three error classes ---------- *)
+Theorem c20_defaults base : Utf8.valid base = true ->
+  get_url_params ("/"%byte :: penc base) None =
+  UOk {| p_base := base; p_attrs := [s2b "*"]; p_scope := Subtree; p_filter := s2b "(objectClass=*)"; p_exts := [] |}.
+Proof. intros Hb. unfold get_url_params. change (beq "/" "/")%byte with true. cbn match. rewrite pdec_penc, Hb. reflexivity. Qed.
+
+(* only the base and the attribute list given: subtree scope and the match-all filter *)
+Theorem c20_defaults_after_attrs base attrs : Utf8.valid base = true -> attrs <> [] -> Forall attr_ok attrs ->
+  get_url_params ("/"%byte :: penc base) (Some (join ","%byte attrs)) =
+  UOk {| p_base := base; p_attrs := attrs; p_scope := Subtree; p_filter := s2b "(objectClass=*)"; p_exts := [] |}.
+Proof.
+  intros Hb Han Hat. unfold get_url_params. change (beq "/" "/")%byte with true. cbn match. rewrite pdec_penc, Hb. cbn [negb].
+  assert (Hq1 : no_byte "?"%byte (join ","%byte attrs)) by (apply no_byte_join; [eapply Forall_impl; [|exact Hat]; intros a (_ & _ & H); exact H|reflexivity]).
+  rewrite splitn_end by exact Hq1. cbn [app nth_error].
+  assert (Hj : join ","%byte attrs <> []).
+  { destruct attrs as [|a l]; [congruence|]. inversion Hat as [|? ? (Hne & _) _]; subst. destruct l; cbn [join]; [exact Hne|]. destruct a; [congruence|discriminate]. }
+  destruct (join ","%byte attrs) as [|j0 jt] eqn:Ej; [congruence|]. rewrite <- Ej.
+  rewrite split_join; [|assumption|eapply Forall_impl; [|exact Hat]; intros a (_ & H & _); exact H].
+  reflexivity.
+Qed.
+
+(* an invalid scope word is an error, whatever follows it *)
+Theorem c20_bad_scope base attrs w rest : Utf8.valid base = true -> attrs <> [] -> Forall attr_ok attrs ->
+  w <> [] -> no_byte "?"%byte w -> beqs w (s2b "base") = false -> beqs w (s2b "one") = false -> beqs w (s2b "sub") = false ->
+  get_url_params ("/"%byte :: penc base) (Some (join ","%byte attrs ++ "?"%byte :: w ++ "?"%byte :: rest)) = UErr EScope.
+Proof.
+  intros Hb Han Hat Hw Hwq E1 E2 E3. unfold get_url_params. change (beq "/" "/")%byte with true. cbn match. rewrite pdec_penc, Hb. cbn [negb].
+  assert (Hq1 : no_byte "?"%byte (join ","%byte attrs)) by (apply no_byte_join; [eapply Forall_impl; [|exact Hat]; intros a (_ & _ & H); exact H|reflexivity]).
+  rewrite splitn_field by exact Hq1. rewrite splitn_field by exact Hwq. cbn [app nth_error].
+  destruct w as [|w0 wt]; [congruence|]. now rewrite E1, E2, E3.
+Qed.
+
+(* a percent-sequence that does not decode to UTF-8 in the base DN is an error *)
+Theorem c20_non_utf8_base path query : Utf8.valid (pdec (match path with c :: r => if beq c "/"%byte then r else path | [] => path end)) = false ->
+  get_url_params path query = UErr EUtf8.
+Proof. intros H. unfold get_url_params. now rewrite H. Qed.
+
+(* extensions: an unknown one is an error exactly when it is marked critical, and is ignored otherwise *)
+Definition known_ext (id : bytes) : bool :=
+  beqs id (s2b "1.3.6.1.4.1.10094.1.5.1") || beqs id (s2b "1.3.6.1.4.1.10094.1.5.2") || beqs id (s2b "1.3.6.1.4.1.1466.20037") ||
+  ascii_lc_equal (s2b "bindname") id || ascii_lc_equal (s2b "x-bindpw") id.
+Lemma splitn2_noeq id : no_byte "="%byte id -> splitn_on 2 "="%byte id [] = [id].
+Proof. intros H. now rewrite splitn_end by exact H. Qed.
+Theorem c20_unknown_critical id r acc : no_byte "="%byte id -> known_ext id = false ->
+  do_exts (("!"%byte :: id) :: r) acc = UErr ECritical.
+Proof.
+  intros Hn Hk. unfold known_ext in Hk. repeat (apply orb_false_elim in Hk as [Hk ?]).
+  cbn [do_exts]. assert (Hn' : no_byte "="%byte ("!"%byte :: id)) by (unfold no_byte in *; cbn; exact Hn).
+  rewrite splitn2_noeq by exact Hn'. change (beq "!" "!")%byte with true. cbv iota beta.
+  change (pdec []) with (@nil byte). change (Utf8.valid []) with true. cbn [negb].
+  repeat match goal with H : _ = false |- _ => rewrite H; clear H end. reflexivity.
+Qed.
+Theorem c20_unknown_noncritical_ignored id r acc : no_byte "="%byte id -> known_ext id = false ->
+  (match id with c :: _ => beq c "!"%byte = false | [] => True end) ->
+  do_exts (id :: r) acc = do_exts r acc.
+Proof.
+  intros Hn Hk Hb. unfold known_ext in Hk. repeat (apply orb_false_elim in Hk as [Hk ?]).
+  cbn [do_exts]. rewrite splitn2_noeq by exact Hn.
+  destruct id as [|c tl].
+  - cbv iota beta. change (pdec []) with (@nil byte). change (Utf8.valid []) with true. cbn [negb].
+    repeat match goal with H : _ = false |- _ => rewrite H; clear H end. reflexivity.
+  - rewrite Hb. cbv iota beta. change (pdec []) with (@nil byte). change (Utf8.valid []) with true. cbn [negb].
+    repeat match goal with H : _ = false |- _ => rewrite H; clear H end. reflexivity.
+Qed.
+Print Assumptions c20_bad_scope.
+Print Assumptions c20_unknown_critical.
